@@ -11,20 +11,49 @@ Driver for stream `blocks` (C06): one op per line, one observation per line.
   note <text>                                -> ok                  (a step of the case that is judged by the oracle only)
   addheaders <h>;<h>;...|-      h = idx:hash:prev:ts:nc:psr:wit
      -> ok bh=<n> hh=<n> top=<hash of the last recorded header> | err:<class> bh=<n> hh=<n> db=same
-  addblock idx= sre= hash= prev= ts= nc= psr= wit= mroot= cmroot= newroot= store= txs=<tx>,..|-
-        tx = id:wit:sender:fee:netfee:valid:confl+confl|-
+  chain nvals= h= inc= mbsf= fpb= mvg= mtb= p2p= rsv= nta= committee= oracle= notary= attrfee=<typ>:<fee>,.. blocked=<name>,..|-
+                                             -> ok                  (what the stand-alone tx verification reads)
+  rec <hash> tx | rec <hash> stub <idx> <name>@<idx>+...   -> ok   (what is stored on chain under a hash)
+  verifytx <tx>                              -> ok | err:<class>    (VerifyTx: off-chain entry, empty pool)
+  addblock idx= sre= hash= prev= ts= nc= psr= wit= prim= mroot= newroot= store= txs=<tx>,..|- txh=<32-byte tx hash, hex>,..|-
+        (mroot = digest of the header's MerkleRoot; the model computes the root of txh with double SHA-256)
+        tx = id:wit:sys:net:vub:size:scriptok:<signer>+..:<attr>+..|-
+        signer = name/<scope None>/<s<hashOk><native><scriptsOk><result>.<cost> | m | x>
+        attr = hp | or.<scriptok><requestok>.<gas> | nvb.<h> | cf.<hash> | na.<nkeys> | rs.<type>
      -> ok bh=<n> hh=<n> stored=<hash>/<wit> stale=<number of block txs still in the mempool>
-      | err:<class> bh=<n> hh=<n> ledger=same pool=same db=<same|hdr>
+      | err:<class> bh=<n> hh=<n> ledger=same pool=same db=<same|hdr>      class tx = tx/<reason>@<position>
 -/
 import NeoModel.Base.Proto
 import NeoModel.Base.Hex
+import NeoModel.Base.Sha256
 import NeoModel.Model.AddBlock
+import NeoModel.Model.AddBlock.TxVerify
 open NeoModel NeoModel.AddBlock
+
+/-- the scalar part of the `chain` line -/
+structure ChainCfg where
+  height : Nat := 0
+  maxVUBInc : Nat := 0
+  maxBlockSysFee : Nat := 0
+  feePerByte : Nat := 0
+  maxVerGas : Nat := 0
+  mtb : Nat := 0
+  p2p : Bool := false
+  rsv : Bool := false
+  nta : Bool := false
+  committee : Nat := 0
+  oracle : Option Nat := none
+  notary : Nat := 0
+  nvals : Nat := 0
+  attrFees : List (Nat × Nat) := []
+  blocked : List Nat := []
 
 structure DState where
   node : Node Nat
   bals : List (Nat × Nat)
   sigs : List (Nat × Nat × Nat)
+  ccfg : ChainCfg := {}
+  recs : List (Nat × Rec) := []
 
 def emptyNode : Node Nat :=
   { cfg := { sr := false, verifyTx := true, skip := false }, blockHeight := 0, headers := [], ledger := 0, pool := [] }
@@ -61,17 +90,72 @@ def kv (ws : List String) (key : String) : Option String :=
 
 def bit (s : String) : Option Bool := if s == "1" then some true else if s == "0" then some false else none
 
-def parseTx (s : String) : Option (Tx × Bool) :=
-  match s.splitOn ":" with
-  | [id, w, snd, fee, net, v, c] => do
-    let id ← hexNat id
-    let w ← witNat w
-    let fee ← fee.toNat?
-    let net ← net.toNat?
-    let v ← bit v
-    let cs ← if c == "-" then some [] else (c.splitOn "+").mapM hexNat
-    pure ({ id := id, wit := w, sender := nameNat snd, fee := fee, netFee := net, conflicts := cs }, v)
+def bitC (c : Char) : Option Bool := if c == '1' then some true else if c == '0' then some false else none
+
+def parseWitness (s : String) : Option Witness :=
+  if s == "m" || s == "x" then some (.contract (fun _ => none))
+  else match s.splitOn "." with
+    | [f, cost] =>
+      match f.toList with
+      | ['s', a, b, c, d] => do
+        pure (.script (← bitC a) (← bitC b) (← bitC c) (← bitC d) (← cost.toNat?))
+      | _ => none
+    | _ => none
+
+def parseSigner (s : String) : Option (Signer × Witness) :=
+  match s.splitOn "/" with
+  | [n, sc, w] => do pure ({ account := nameNat n, scopeNone := (← bit sc) }, (← parseWitness w))
   | _ => none
+
+def parseAttr (s : String) : Option Attr :=
+  match s.splitOn "." with
+  | ["hp"] => some .highPriority
+  | ["or", f, g] =>
+    match f.toList with
+    | [a, b] => do pure (.oracleResponse (← bitC a) (← bitC b) (← g.toNat?))
+    | _ => none
+  | ["nvb", h] => h.toNat?.map .notValidBefore
+  | ["cf", h] => (hexNat h).map .conflicts
+  | ["na", n] => n.toNat?.map .notaryAssisted
+  | ["rs", t] => t.toNat?.map .other
+  | _ => none
+
+def parseTx (s : String) : Option VTx :=
+  match s.splitOn ":" with
+  | [id, w, sys, net, vub, size, sok, sg, atr] => do
+    let sgs ← (sg.splitOn "+").mapM parseSigner
+    let ats ← if atr == "-" then some [] else (atr.splitOn "+").mapM parseAttr
+    pure { id := (← hexNat id), wit := (← witNat w), scriptOk := (← bit sok), sysFee := (← sys.toNat?), netFee := (← net.toNat?),
+           vub := (← vub.toNat?), size := (← size.toNat?), signers := sgs.map (·.1), wits := sgs.map (·.2), attrs := ats }
+  | _ => none
+
+def chainOf (st : DState) : Chain :=
+  let c := st.ccfg
+  { height := c.height, maxVUBInc := c.maxVUBInc, maxBlockSysFee := c.maxBlockSysFee, feePerByte := c.feePerByte,
+    maxVerGas := c.maxVerGas, mtb := c.mtb, p2pSigExt := c.p2p, reservedAttrs := c.rsv, notaryActive := c.nta,
+    attrFee := fun t => ((c.attrFees.find? (fun p => p.1 == t)).map (·.2)).getD 0,
+    blocked := fun a => c.blocked.contains a,
+    lookup := fun h => ((st.recs.find? (fun p => p.1 == h)).map (·.2)).getD .none,
+    committee := c.committee, oracleHash := c.oracle, notary := c.notary }
+
+def txErrName : TxErr → String
+  | .sysFeeLimit => "sysfee-limit" | .invalidScript => "invalid-script" | .expired => "expired"
+  | .notYetValid => "not-yet-valid" | .policy => "policy" | .tooBig => "too-big" | .smallNetFee => "small-net-fee"
+  | .alreadyExists => "already-exists" | .hasConflicts => "has-conflicts" | .witness => "witness"
+  | .invalidAttr => "invalid-attr" | .poolDup => "pool-dup" | .poolConflictsAttr => "pool-conflicts-attr"
+  | .insufficientFunds => "insufficient-funds" | .poolConflict => "pool-conflict" | .inBlockConflict => "inblock-conflict"
+
+/-- the 6-byte token the harness prints for a 32-byte value (`short`): zero stays zero, otherwise the
+first 6 bytes of its SHA-256 -/
+def digest6 (b : Bytes) : Nat :=
+  if b.all (· == 0) then 0
+  else ((Sha256.hash b).take 6).foldl (fun a x => a * 256 + x.toNat) 0
+
+/-- Block.ComputeMerkleRoot over the received transaction hashes, with the real node hash -/
+def realMerkle (hs : List Bytes) : Bytes :=
+  merkleRoot (fun a b => Sha256.hash2 (a ++ b)) (List.replicate 32 0) hs
+
+def balOf (st : DState) (a : Nat) : Nat := ((st.bals.find? (fun p => p.1 == a)).map (·.2)).getD 0
 
 def errName : Err → String
   | .indexFuture => "index-future" | .indexOld => "index-old" | .srFlag => "srflag"
@@ -88,25 +172,36 @@ def doAddBlock (st : DState) (ws : List String) : Option (DState × String) := d
   let nc ← hexNat (← kv ws "nc")
   let psr ← hexNat (← kv ws "psr")
   let wit ← witNat (← kv ws "wit")
+  let prim ← (← kv ws "prim").toNat?
   let mroot ← hexNat (← kv ws "mroot")
-  let cmroot ← hexNat (← kv ws "cmroot")
+  let txhS ← kv ws "txh"
+  let txh ← if txhS == "-" then some [] else (txhS.splitOn ",").mapM Hex.decode
   let newroot ← hexNat (← kv ws "newroot")
   let store ← bit (← kv ws "store")
   let txsS ← kv ws "txs"
   let txv ← if txsS == "-" then some [] else (txsS.splitOn ",").mapM parseTx
   let hdr : Header := { index := idx, hash := hash, prevHash := prev, merkleRoot := mroot, ts := ts,
-                        nextConsensus := nc, sre := sre, prevStateRoot := psr, wit := wit }
-  let b : Block := { hdr := hdr, txs := txv.map (·.1) }
-  let valid := (txv.filter (·.2)).map (fun p => (p.1.id, p.1.wit))
+                        nextConsensus := nc, sre := sre, prevStateRoot := psr, wit := wit, primary := prim }
+  let b : Block := { hdr := hdr, txs := txv.map VTx.toTx }
+  let chain := chainOf st
+  -- the full hash behind a transaction id of this block
+  let table := (txv.map (·.id)).zip txh
+  let full : Nat → Bytes := fun i => ((table.find? (fun p => p.1 == i)).map (·.2)).getD []
+  -- the received object with this hash and these witnesses
+  let why : Tx → Option TxErr := fun t =>
+    match txv.find? (fun v => v.id == t.id && v.wit == t.wit) with
+    | some v => verifyTx chain v
+    | none => some .witness
   let env : Env Nat := {
     signedBy := fun w h a => st.sigs.contains (w, h, a),
-    merkle := fun _ => cmroot,
-    txValid := fun _ _ t => valid.contains (t.id, t.wit),
-    balance := fun _ a => ((st.bals.find? (fun p => p.1 == a)).map (·.2)).getD 0,
+    merkle := fun ids => digest6 (realMerkle (ids.map full)),
+    txValid := fun _ _ t => (why t).isNone,
+    balance := fun _ a => balOf st a,
     apply := fun _ _ => if store then some newroot else none,
     rootOf := fun l => l,
     keep := fun _ _ => true,
-    spoil := fun l _ => l }   -- follow-ups of a failed execution are not tied (see `note`)
+    spoil := fun l _ => l,    -- follow-ups of a failed execution are not tied (see `note`)
+    nvals := st.ccfg.nvals }
   let (n', e) := addBlock env st.node b
   let hh := n'.headerHeight
   match e with
@@ -118,7 +213,12 @@ def doAddBlock (st : DState) (ws : List String) : Option (DState × String) := d
     pure ({ st with node := n' }, s!"ok bh={n'.blockHeight} hh={hh} stored={stored} stale={stale}")
   | some er =>
     let db := if n'.headers.length == st.node.headers.length then "same" else "hdr"
-    pure ({ st with node := n' }, s!"err:{errName er} bh={n'.blockHeight} hh={hh} ledger=same pool=same db={db}")
+    let cls := match er with
+      | .tx => match txLoopE env n' why 0 [] b.txs with
+        | some (j, e) => s!"tx/{txErrName e}@{j}"
+        | none => "tx/?"
+      | _ => errName er
+    pure ({ st with node := n' }, s!"err:{cls} bh={n'.blockHeight} hh={hh} ledger=same pool=same db={db}")
 
 def parseHdr (sr : Bool) (s : String) : Option Header :=
   match s.splitOn ":" with
@@ -151,9 +251,50 @@ def doAddHeaders (st : DState) (arg : String) : Option (DState × String) := do
     let db := if n'.headers.length == st.node.headers.length then "same" else "changed"
     pure ({ st with node := n' }, s!"err:{errName er} bh={n'.blockHeight} hh={n'.headerHeight} db={db}")
 
+def doChain (st : DState) (ws : List String) : Option DState := do
+  let n (k : String) : Option Nat := (kv ws k).bind String.toNat?
+  let bk (k : String) : Option Bool := (kv ws k).bind bit
+  let orc ← kv ws "oracle"
+  let af ← kv ws "attrfee"
+  let afs ← (af.splitOn ",").mapM (fun t => match t.splitOn ":" with
+    | [a, b] => do pure ((← a.toNat?), (← b.toNat?))
+    | _ => none)
+  let bl ← kv ws "blocked"
+  pure { st with ccfg := {
+    nvals := (← n "nvals"), height := (← n "h"), maxVUBInc := (← n "inc"), maxBlockSysFee := (← n "mbsf"), feePerByte := (← n "fpb"),
+    maxVerGas := (← n "mvg"), mtb := (← n "mtb"), p2p := (← bk "p2p"), rsv := (← bk "rsv"), nta := (← bk "nta"),
+    committee := nameNat (← kv ws "committee"), oracle := if orc == "-" then none else some (nameNat orc),
+    notary := nameNat (← kv ws "notary"), attrFees := afs,
+    blocked := if bl == "-" then [] else (bl.splitOn ",").map nameNat } }
+
+def doRec (st : DState) (ws : List String) : Option DState :=
+  match ws with
+  | [h, "tx"] => do pure { st with recs := ((← hexNat h), Rec.tx) :: st.recs }
+  | [h, "stub", idx, sg] => do
+    let sgs ← (sg.splitOn "+").mapM (fun t => match t.splitOn "@" with
+      | [a, i] => do pure (nameNat a, (← i.toNat?))
+      | _ => none)
+    pure { st with recs := ((← hexNat h), Rec.stub (← idx.toNat?) sgs) :: st.recs }
+  | _ => none
+
 def step (st : DState) (ws : List String) : DState × String :=
   match ws with
   | ["case", k] => (initState, s!"case {k}")
+  | "chain" :: rest =>
+    match doChain st rest with
+    | some st' => (st', "ok")
+    | none => (st, "bad-op")
+  | "rec" :: rest =>
+    match doRec st rest with
+    | some st' => (st', "ok")
+    | none => (st, "bad-op")
+  | ["verifytx", tok] =>
+    match parseTx tok with
+    | some v =>
+      match verifyOffChain (chainOf st) (balOf st (v.toTx).sender) v with
+      | none => (st, "ok")
+      | some e => (st, s!"err:{txErrName e}")
+    | none => (st, "bad-op")
   | ["undecodable"] => (st, "ok")
   | "note" :: _ => (st, "ok")
   | "cfg" :: rest =>
